@@ -176,14 +176,14 @@ def impAddr (env : Env) : Imp → BitVec 64
   | .stub n => env.stubAddr n
 
 /-- mocker.go:76/88/101 `applyBy*`: proxy → `patch.Trampoline` → on error panic (mocker untouched), else
-    `m.guard = guard; m.guard.Apply(); m.imp = callback` -/
+    `m.guard = guard; m.guard.Apply(); m.imp = callback; m.canceled = false` -/
 def applyImp (env : Env) (s : St) (id : Nat) (imp : Imp) : St × Option Err :=
   let m := s.mockers id
   match replaceFunc env s m.target (impAddr env imp) m.origin with
   | (s1, .error e) => (s1, some e)
   | (s1, .ok g) =>
     let s2 := guardApply s1 g
-    ({ s2 with mockers := upd s2.mockers id { (s2.mockers id) with guard := some g, imp := some imp } }, none)
+    ({ s2 with mockers := upd s2.mockers id { (s2.mockers id) with guard := some g, imp := some imp, canceled := false } }, none)
 
 /-- `m.guard.Cancel()` if `m.guard != nil` (mocker.go:157 → guard.go:46 UnpatchWithLock) -/
 def cancelGuard (s : St) : Option Nat → St
@@ -224,11 +224,22 @@ def whens (s : St) (id : Nat) : St :=
   { s with nStubs := s.nStubs + 1,
            mockers := upd s.mockers id { (s.mockers id) with imp := some (.stub s.nStubs), hasWhen := true } }
 
+/-- mocker.go:509 (and :245, :395, :461) `Apply`: after a successful `doApply` the old `When` is discarded (`m.when = nil`),
+    so that a later `Return`/`When` builds and installs a new one; a panicking `doApply` never reaches that line -/
+def clearWhen (s : St) (id : Nat) : St :=
+  { s with mockers := upd s.mockers id { (s.mockers id) with hasWhen := false } }
+
+/-- the public `Apply(callback)` on mocker `id` -/
+def applyCb (env : Env) (s : St) (id k : Nat) : St × Option Err :=
+  match (applyImp env s id (.cb k)).2 with
+  | none => (clearWhen (applyImp env s id (.cb k)).1 id, none)
+  | some e => ((applyImp env s id (.cb k)).1, some e)
+
 /-- one public-API call; the second component is the panic class, if any -/
 def step (env : Env) (s : St) : Op → St × Option Err
   | .apply b key k origin =>
     let r := getMocker s b key
-    applyImp env (setOrigin r.1 r.2 origin) r.2 (.cb k)
+    applyCb env (setOrigin r.1 r.2 origin) r.2 k
   | .ret b key origin =>
     let r := getMocker s b key
     let s2 := setOrigin r.1 r.2 origin
